@@ -99,6 +99,17 @@ CLAIMED.update({
         ref="DESIGN.md 3/C18"),
 })
 
+CLAIMED.update({
+    "C14": dict(
+        text="Restricted claim. Proof on the real ModuleFinder.find_package over an abstract file system (membership/existence predicates): the decision for one arbitrary "
+             "search path from any list of namespace directories collected so far (regular package > stubs-only package > module file; bare directory collected, "
+             "search continues; a returned package is always justified by the file system; only ModuleNotFoundError escapes), and the single-search-path table "
+             "(module file not hidden by a bare directory). Discovery of sub-modules, listing-order independence and equality with the import system are a bounded native tier.",
+        note="Listings are consumed through membership only (a change that depends on order becomes undecided); module names without dots. Known finding C14-F1 "
+             "(namespace packages with clashing portions).",
+        ref="DESIGN.md 3/C14"),
+})
+
 NA_REASON = {
     "C17": "relates two whole-program analyses through CPython's run-time object model; a contract for the inspector would have to assume the very "
            "object model the property compares against, so no obligation over /repo code alone implies agreement (DESIGN.md section 4)",
